@@ -70,6 +70,10 @@ def run_twice(n=6, tag="determinism"):
     progs["resources-and-references-in-five-modules"] = dict(
         [("main.oal", "".join('use "m%d.oal" as m%d;\n' % (i, i) for i in range(5)) + "res /health on get -> <{ " + ", ".join("'k%d m%d.t%d" % (i, i, i) for i in range(5)) + " }>;\n")] +
         [("m%d.oal" % i, "let @r%d = { 'self? @r%d, 'v num };\nlet t%d = { 'next? t%d, 'r @r%d };\nres /m%d on get -> <t%d>;\nres /m%d/{ 'id int } on put : <@r%d> -> <@r%d>;\n" % ((i,) * 10)) for i in range(5)])
+    # two imports that bring the same name into the same namespace: whichever wins, it wins every time
+    progs["two-imports-with-a-common-name"] = {"main.oal": 'use "a.oal";\nuse "b.oal";\nuse "c.oal" as q;\nuse "d.oal" as q;\nres /items on get -> <item> :: <status=404, q.item>;\n',
+                                               "a.oal": "let item = { 'from_a str };\n", "b.oal": "let item = { 'from_b int };\n",
+                                               "c.oal": "let item = { 'from_c str };\n", "d.oal": "let item = { 'from_d int };\n"}
     # a long file (more parse results than any bounded table keeps) that ends in implicitly named recursions: whatever is
     # evicted or rebuilt on the way must not show in the generated names
     progs["long-file-then-implicit-recursions"] = "".join("let v%d = { 'a num, 'b [str] };\n" % i for i in range(6000)) + \
@@ -84,7 +88,7 @@ def run_twice(n=6, tag="determinism"):
         else:
             files = {"main.oal": src} if src else {"m.oal": "let t = { 'q str };\nlet u x = [x];\n", "main.oal": 'use "m.oal" as m;\nres /m on get -> <m.u m.t>;\n'}
         outs = []
-        for i in range(n if (name in PROGRAMS or name.startswith("resources-and-")) else 3):
+        for i in range(n if (name in PROGRAMS or name.startswith(("resources-and-", "two-imports-"))) else 3):
             # same sources at the same location every time (implicit component names hash the module URL)
             d = os.path.join(rdir, name)
             try:
